@@ -574,6 +574,12 @@ Definition zguard (σ : store Z) (o : zop) : gclass :=
     match filter (fun d => match guard_read d with GOk => false | _ => true end) ds with
     | d :: _ => guard_read d
     | [] => if existsb (fun d => is_cm (ord (d_ap d))) ds then GOrderMix
+            (* assignArray's rank-2 vector special case: a (1,n)/(n,1) operand that is a view or carries
+               other than unit strides (the guard of C10_concat: F32) *)
+            else if match o with ZConcat _ _ _ => true | _ => false end
+                    && existsb (fun d => (length (shp (d_ap d)) =? 2)%nat && is_vector (shp (d_ap d))
+                                         && (d_view d || negb (allones (str (d_ap d))) || is_some (d_old d))) ds
+            then GVectorAxes
             else match o, ds with
                  | ZStack _ _ _, d0 :: _ =>
                    if negb (forallb (fun d => list_eqb (shp (d_ap d)) (shp (d_ap d0))) ds) then GShapeMisfit else GOk
